@@ -38,10 +38,11 @@ VARIABLES
   ustreams,  \* on the medium, written through: stream name -> contents
   sess,      \* "open" | "closed"
   ptype,     \* package type
+  ro,        \* TRUE while the session has only opened the package and read from it
   hist       \* bookkeeping only (hidden by VIEW): [path, last]
 
-vars == <<schemas, tstream, pool, cp, summary, dirty, dpool, dsum, ustreams, sess, ptype, hist>>
-view == <<schemas, tstream, pool, cp, summary, dirty, dpool, dsum, ustreams, sess, ptype>>
+vars == <<schemas, tstream, pool, cp, summary, dirty, dpool, dsum, ustreams, sess, ptype, ro, hist>>
+view == <<schemas, tstream, pool, cp, summary, dirty, dpool, dsum, ustreams, sess, ptype, ro>>
 
 True == Lit(IntV(1))       \* the condition of a statement without WHERE
 
@@ -51,6 +52,11 @@ RowLimit(t) == IF Reserved(t) THEN 65536 ELSE MaxRows
 -----------------------------------------------------------------------------
 \* Derived views.
 
+\* DOMAIN tstream is the set of table streams that EXIST in the container; a table without a
+\* stream is empty (a new table has none until its first statement; an emptied table keeps one).
+TsGet(ts, t) == IF t \in DOMAIN ts THEN ts[t] ELSE <<>>
+TsSet(ts, t, rows) == [x \in DOMAIN ts \cup {t} |-> IF x = t THEN rows ELSE ts[x]]
+TsDel(ts, t) == [x \in DOMAIN ts \ {t} |-> ts[x]]
 RowsIn(p, ts, t) == IF t \in DOMAIN ts THEN ResolveRows(p, ts[t]) ELSE <<>>
 Rows(t) == RowsIn(pool, tstream, t)                \* what the API reports
 AllRowsOf(ts) ==
@@ -96,16 +102,16 @@ DoInsert(st, t, cols, new) ==
   LET cur == RowsIn(st.pool, st.ts, t)
   IN IF RowsValid(cols, new) # "yes" \/ ~KeysDistinct(cols, cur \o NormRows(new)) THEN Err
      ELSE LET x == InternRows(st.pool, new)
-              all == (IF t \in DOMAIN st.ts THEN st.ts[t] ELSE <<>>) \o x.rows
+              all == TsGet(st.ts, t) \o x.rows
           IN IF Len(all) > RowLimit(t) \/ Len(x.pool) > MaxRefs THEN Err
-             ELSE Ok([pool |-> x.pool, ts |-> [st.ts EXCEPT ![t] = SortCells(cols, x.pool, all)]])
+             ELSE Ok([pool |-> x.pool, ts |-> TsSet(st.ts, t, SortCells(cols, x.pool, all))])
 
 DoDelete(st, t, cols, cond) ==
   IF ~KnownCols(cols, cond) THEN Err
   ELSE LET hit(r) == Holds(cond, RowOf(cols, ResolveRow(st.pool, r)))
-           gone == SelectSeq(st.ts[t], hit)
-           kept == SelectSeq(st.ts[t], LAMBDA r : ~hit(r))
-       IN Ok([pool |-> ReleaseRows(st.pool, gone), ts |-> [st.ts EXCEPT ![t] = kept]])
+           gone == SelectSeq(TsGet(st.ts, t), hit)
+           kept == SelectSeq(TsGet(st.ts, t), LAMBDA r : ~hit(r))
+       IN Ok([pool |-> ReleaseRows(st.pool, gone), ts |-> TsSet(st.ts, t, kept)])
 
 \* one row: release the old cell and intern the new value, assignment by assignment
 UpdRow(cols, p, row, sets) ==
@@ -124,9 +130,9 @@ DoUpdate(st, t, cols, sets, cond) ==
                                THEN LET u == UpdRow(cols, acc.pool, row, sets)
                                     IN [pool |-> u.pool, rows |-> Append(acc.rows, u.row)]
                                ELSE [pool |-> acc.pool, rows |-> Append(acc.rows, row)],
-                             [pool |-> st.pool, rows |-> <<>>], st.ts[t])
+                             [pool |-> st.pool, rows |-> <<>>], TsGet(st.ts, t))
           IN IF Len(x.pool) > MaxRefs THEN Err
-             ELSE Ok([pool |-> x.pool, ts |-> [st.ts EXCEPT ![t] = SortCells(cols, x.pool, x.rows)]])
+             ELSE Ok([pool |-> x.pool, ts |-> TsSet(st.ts, t, SortCells(cols, x.pool, x.rows))])
 
 TableIs(t) == Bin("eq", Col(N_Table), Lit(StrV(t)))
 NameIs(t)  == Bin("eq", Col(N_Name), Lit(StrV(t)))
@@ -140,8 +146,7 @@ CreateAccepted(t, cols) ==
   /\ \A k \in 1..Len(cols) : Representable(t, cols[k])
 
 DoCreate(st, t, cols, hasV) ==
-  LET ts0 == IF t \in DOMAIN st.ts THEN st.ts ELSE [x \in DOMAIN st.ts \cup {t} |-> IF x = t THEN <<>> ELSE st.ts[x]]
-      a == DoInsert([st EXCEPT !.ts = ts0], N_Columns, ColumnsCols, ColumnsRows(t, cols))
+  LET a == DoInsert(st, N_Columns, ColumnsCols, ColumnsRows(t, cols))
       b == IF IsErr(a) THEN Err ELSE DoInsert(a.ok, N_Tables, TablesCols, <<<<StrV(t)>>>>)
       c == IF IsErr(b) THEN Err
            ELSE IF hasV
@@ -150,8 +155,8 @@ DoCreate(st, t, cols, hasV) ==
   IN c
 
 DoDrop(st, t) ==
-  LET p1 == ReleaseRows(st.pool, st.ts[t])
-      s1 == [pool |-> p1, ts |-> [x \in DOMAIN st.ts \ {t} |-> st.ts[x]]]
+  LET p1 == ReleaseRows(st.pool, TsGet(st.ts, t))
+      s1 == [pool |-> p1, ts |-> TsDel(st.ts, t)]
       a == IF N_Validation \in DOMAIN s1.ts THEN DoDelete(s1, N_Validation, ValidationCols, TableIs(t)).ok ELSE s1
       b == DoDelete(a, N_Columns, ColumnsCols, TableIs(t)).ok
   IN DoDelete(b, N_Tables, TablesCols, NameIs(t)).ok
@@ -165,7 +170,7 @@ Log(op, args, res) == hist' = [path |-> Append(hist.path, hist.last), last |-> E
 Open == sess = "open"
 Touch == [dirty EXCEPT !.fin = TRUE]
 DiskSame == UNCHANGED <<dpool, dsum>>
-Rest == UNCHANGED <<cp, summary, ustreams, sess, ptype>>
+Rest == UNCHANGED <<cp, summary, ustreams, sess, ptype>> /\ ro' = FALSE
 
 Rejected(op, args) ==      \* a refused call changes nothing (C04); the finisher bit is not observable
   /\ UNCHANGED <<schemas, tstream, pool>> /\ DiskSame /\ Rest
@@ -216,29 +221,29 @@ Delete(t, cond) ==
 SetCodepage(c) ==
   /\ Open
   /\ cp' = c /\ dirty' = [dirty EXCEPT !.fin = TRUE, !.pool = TRUE]
-  /\ UNCHANGED <<schemas, tstream, pool, summary, ustreams, sess, ptype>> /\ DiskSame
+  /\ UNCHANGED <<schemas, tstream, pool, summary, ustreams, sess, ptype>> /\ DiskSame /\ ro' = FALSE
   /\ Log("SetCodepage", [cp |-> c], "Ok")
 
 SetSummary(f, v) ==
   /\ Open
   /\ summary' = [summary EXCEPT ![f] = v]
   /\ dirty' = [dirty EXCEPT !.fin = TRUE, !.sum = TRUE]
-  /\ UNCHANGED <<schemas, tstream, pool, cp, ustreams, sess, ptype>> /\ DiskSame
+  /\ UNCHANGED <<schemas, tstream, pool, cp, ustreams, sess, ptype>> /\ DiskSame /\ ro' = FALSE
   /\ Log("SetSummary", [field |-> f, value |-> v], "Ok")
 
 WriteStream(n, c) ==      \* names here are ones the library accepts; C11 covers the rest
   /\ Open
   /\ ustreams' = [x \in DOMAIN ustreams \cup {n} |-> IF x = n THEN c ELSE ustreams[x]]
-  /\ UNCHANGED <<schemas, tstream, pool, cp, summary, dirty, sess, ptype>> /\ DiskSame
+  /\ UNCHANGED <<schemas, tstream, pool, cp, summary, dirty, sess, ptype>> /\ DiskSame /\ ro' = FALSE
   /\ Log("WriteStream", [name |-> n, data |-> c], "Ok")
 
 RemoveStream(n) ==
   /\ Open
   /\ IF n \in DOMAIN ustreams
      THEN /\ ustreams' = [x \in DOMAIN ustreams \ {n} |-> ustreams[x]]
-          /\ UNCHANGED <<schemas, tstream, pool, cp, summary, dirty, sess, ptype>> /\ DiskSame
+          /\ UNCHANGED <<schemas, tstream, pool, cp, summary, dirty, sess, ptype>> /\ DiskSame /\ ro' = FALSE
           /\ Log("RemoveStream", [name |-> n], "Ok")
-     ELSE /\ UNCHANGED <<schemas, tstream, pool, cp, summary, dirty, ustreams, sess, ptype>> /\ DiskSame
+     ELSE /\ UNCHANGED <<schemas, tstream, pool, cp, summary, dirty, ustreams, sess, ptype>> /\ DiskSame /\ ro' = FALSE
           /\ Log("RemoveStream", [name |-> n], "Err")
 
 \* The finisher: writes the summary stream and the pool streams if modified.
@@ -249,7 +254,7 @@ Finish ==
 
 Close(op, s2) ==
   /\ Open /\ Finish /\ sess' = s2
-  /\ UNCHANGED <<schemas, tstream, pool, cp, summary, ustreams, ptype>>
+  /\ UNCHANGED <<schemas, tstream, pool, cp, summary, ustreams, ptype, ro>>
   /\ Log(op, [x |-> 0], "Ok")
 Flush     == Close("Flush", "open")
 IntoInner == Close("IntoInner", "closed")
@@ -260,7 +265,7 @@ Load(op) ==
   /\ schemas' = DecodeSchemas(tstream, dpool.e)
   /\ pool' = dpool.e /\ cp' = dpool.cp /\ summary' = dsum
   /\ dirty' = [fin |-> FALSE, sum |-> FALSE, pool |-> FALSE]
-  /\ sess' = "open"
+  /\ sess' = "open" /\ ro' = TRUE
   /\ UNCHANGED <<tstream, ustreams, ptype>> /\ DiskSame
   /\ Log(op, [x |-> 0], "Ok")
 Reopen == sess = "closed" /\ Load("Reopen")
@@ -294,7 +299,8 @@ Others   == {"cp", "summary", "ustreams", "sess", "ptype"}
 AllButDirty == {"schemas", "tstream", "pool"} \cup Medium \cup Others
 
 UnchangedT(s, s1, S) ==
-  \A t \in S : /\ t \in DOMAIN s1.tstream /\ s1.tstream[t] = s.tstream[t]
+  \A t \in S : /\ (t \in DOMAIN s1.tstream) = (t \in DOMAIN s.tstream)
+               /\ TsGet(s1.tstream, t) = TsGet(s.tstream, t)
                /\ RowsS(s1, t) = RowsS(s, t)
 DirtyMono(s, s1) ==
   /\ s1.dirty.fin /\ (s.dirty.sum => s1.dirty.sum) /\ (s.dirty.pool => s1.dirty.pool)
@@ -305,15 +311,15 @@ NothingChanged(s, s1) ==
   /\ (s.dirty.sum => s1.dirty.sum) /\ (s.dirty.pool => s1.dirty.pool) /\ (s.dirty.fin => s1.dirty.fin)
 TableStep(s, s1, t, newrows) ==    \* only table t changes, to exactly newrows
   /\ Same(s, s1, {"schemas"} \cup Medium \cup Others)
-  /\ DOMAIN s1.tstream = DOMAIN s.tstream
+  /\ DOMAIN s1.tstream = DOMAIN s.tstream \cup {t}       \* the statement (re)writes the table's stream
   /\ RowsS(s1, t) = newrows
-  /\ UnchangedT(s, s1, DOMAIN s.tstream \ {t})
+  /\ UnchangedT(s, s1, DOMAIN s.schemas \ {t})
   /\ MemWFS(s1) /\ DirtyMono(s, s1)
 
 WithinCapacity(s1) == /\ \A t \in DOMAIN s1.tstream : Len(s1.tstream[t]) <= RowLimit(t)
                       /\ Len(s1.pool) <= MaxRefs
 MayExceed(s, t, nrows, nstrings) ==
-  (t \in DOMAIN s.tstream /\ Len(s.tstream[t]) + nrows > RowLimit(t)) \/ Len(s.pool) + nstrings > MaxRefs
+  Len(TsGet(s.tstream, t)) + nrows > RowLimit(t) \/ Len(s.pool) + nstrings > MaxRefs
 StrCount(rows) == FoldLeft(LAMBDA n, r : n + Cardinality({j \in 1..Len(r) : IsStr(r[j]) /\ r[j].s # <<>>}), 0, rows)
 
 InsertSpec(s, a, res, s1) ==
@@ -359,7 +365,7 @@ CreateSpec(s, a, res, s1) ==
   IN \/ /\ res = "Ok" /\ CreateAcceptedS(s, t, cols)
         /\ s1.schemas = sc2
         /\ Same(s, s1, Medium \cup Others)
-        /\ DOMAIN s1.tstream = DOMAIN s.tstream \cup {t} /\ s1.tstream[t] = <<>>
+        /\ DOMAIN s1.tstream = DOMAIN s.tstream \cup ({N_Tables, N_Columns, N_Validation} \cap DOMAIN s.schemas)
         /\ UnchangedT(s, s1, others)
         /\ RowsS(s1, N_Columns) = SortByKey(ColumnsCols, RowsS(s, N_Columns) \o ColumnsRows(t, cols))
         /\ RowsS(s1, N_Tables)  = SortByKey(TablesCols, RowsS(s, N_Tables) \o <<<<StrV(t)>>>>)
@@ -377,8 +383,8 @@ DropSpec(s, a, res, s1) ==
   IN \/ /\ res = "Ok" /\ ok
         /\ s1.schemas = [x \in DOMAIN s.schemas \ {t} |-> s.schemas[x]]
         /\ Same(s, s1, Medium \cup Others)
-        /\ DOMAIN s1.tstream = DOMAIN s.tstream \ {t}
-        /\ UnchangedT(s, s1, DOMAIN s.tstream \ {t, N_Tables, N_Columns, N_Validation})
+        /\ DOMAIN s1.tstream = (DOMAIN s.tstream \ {t}) \cup ({N_Tables, N_Columns, N_Validation} \cap DOMAIN s.schemas)
+        /\ UnchangedT(s, s1, DOMAIN s.schemas \ {t, N_Tables, N_Columns, N_Validation})
         /\ RowsS(s1, N_Columns) = gone(ColumnsCols, RowsS(s, N_Columns), TableIs(t))
         /\ RowsS(s1, N_Tables)  = gone(TablesCols, RowsS(s, N_Tables), NameIs(t))
         /\ (N_Validation \in DOMAIN s.schemas =>
